@@ -18,7 +18,7 @@ EXPLANATION = (
     'readN(address)): affine updates of address/length locals, bounded operand-loop counters and the value read (through local '
     'assignments and character buffers into the text parameter) are propagated along condition-consistent CFG paths, with the '
     'operand kinds chosen in per-operand switches restricted to those of one table row; at every return the extent of the reads '
-    'that reached the text is <= the returned length. TILE-ONCE: a range loop that advances by the decoder length stores to its address variable nowhere else. GUARD-LEN: constant returns under a test of the length column of the matched row equal that length. Not decided: text stays inside the buffer, independence from following bytes that are only tested, '
+    'that reached the text is <= the returned length. HELPER-BASE: for a helper that decoders call as `return helper(.., address + K, ..) + C`, C - K is the same at every call site. TILE-ONCE: a range loop that advances by the decoder length stores to its address variable nowhere else. GUARD-LEN: constant returns under a test of the length column of the matched row equal that length. Not decided: text stays inside the buffer, independence from following bytes that are only tested, '
     'the upper bound on lengths.')
 
 
@@ -26,7 +26,7 @@ def run(tier, t0):
     prog = common.program()
     cg = common.callgraph()
     results = [rprog.run(prog, cg), tbl.tlen(prog, cg), extent.read_extent(prog, cg), extent.run_extent(prog, cg, floor=12),
-               caselen.guard_len(prog), rprog.tile_once(prog)]
+               caselen.guard_len(prog), rprog.tile_once(prog), extent.helper_base(prog, 2)]
     return report.finish('C08', tier, results, EXPLANATION,
                          ['opcode tables are not modified at run time (checked: no store to them exists)',
                           'a lower bound that the interval domain cannot establish is reported as an observation, '
